@@ -108,7 +108,59 @@ def build_structure(spec):
               atom_type_labels=list(spec["atom_type_labels"]), atom_type_masses=list(spec["atom_type_masses"]),
               positions=np.array(spec["positions"], float).reshape(-1, 3), cell=np.array(spec["cell"], float),
               charges=list(spec["charges"]), groups=list(spec["groups"]))
+    for key in ("bonds", "bond_types", "angles", "angle_types", "dihedrals", "dihedral_types", "impropers", "improper_types",
+                "pair_coeffs", "bond_type_coeffs", "angle_type_coeffs", "dihedral_type_coeffs", "improper_type_coeffs"):
+        if spec.get(key):
+            kw[key] = list(spec[key])
     return Atoms(**kw)
+
+
+def add_random_terms(rng, spec, tables=None):
+    """Pre-existing typed terms inside, outside and across the planted regions (random graph on near neighbours)."""
+    N = len(spec["elements"])
+    if N < 2:
+        return spec
+    pos = np.array(spec["positions"], float).reshape(-1, 3)
+    cell = np.array(spec["cell"], float)
+    bonds = set()
+    for i in range(N):
+        for _ in range(2):
+            j = rng.randrange(N)
+            if j != i and geom.min_image_dist(pos[i], pos[j], cell) < 2.6 and rng.random() < 0.8:
+                bonds.add((min(i, j), max(i, j)))
+    for _ in range(rng.randint(0, 3)):
+        i, j = rng.sample(range(N), 2)
+        bonds.add((min(i, j), max(i, j)))
+    bonds = [list(b) if rng.random() < 0.5 else [b[1], b[0]] for b in sorted(bonds)]
+    nbr = {}
+    for a, b in bonds:
+        nbr.setdefault(a, []).append(b)
+        nbr.setdefault(b, []).append(a)
+    angles, dihedrals, impropers = [], [], []
+    for j, ns in sorted(nbr.items()):
+        for x in range(len(ns)):
+            for y in range(x + 1, len(ns)):
+                if rng.random() < 0.5 and len(angles) < 30:
+                    angles.append([ns[x], j, ns[y]])
+        if len(ns) >= 3 and rng.random() < 0.4 and len(impropers) < 6:
+            a, b, c = rng.sample(ns, 3)
+            impropers.append([j, a, b, c])
+    for a, b in bonds:
+        for x in nbr.get(a, []):
+            for y in nbr.get(b, []):
+                if x != b and y != a and x != y and rng.random() < 0.3 and len(dihedrals) < 20:
+                    dihedrals.append([x, a, b, y])
+    tables = rng.random() < 0.5 if tables is None else tables
+    for key, tkey, ckey, lst in (("bonds", "bond_types", "bond_type_coeffs", bonds), ("angles", "angle_types", "angle_type_coeffs", angles),
+                                 ("dihedrals", "dihedral_types", "dihedral_type_coeffs", dihedrals),
+                                 ("impropers", "improper_types", "improper_type_coeffs", impropers)):
+        spec[key] = lst
+        nt = rng.randint(1, 3)
+        spec[tkey] = [rng.randrange(nt) for _ in lst]
+        if tables and lst:
+            spec[ckey] = ["%s %.3f %.3f # s%s%d" % (rng.choice(["harmonic", "fourier", "cosine/periodic"]), rng.uniform(1, 500), rng.uniform(0.5, 3), key[0], t)
+                          for t in range(nt)]
+    return spec
 
 
 def build_replacement(rep):
